@@ -889,3 +889,133 @@ def m_write_str(ex, st, func, args, argtys, dest_ty):
     f = deref(args[0])
     f.data.append({"template": "write_str", "args": [deref(args[1])]})
     return [("ret", ok(Struct([])), None)]
+
+
+# ------------------------------------------------------------------ more integer methods
+
+@model(r"core::num::<impl \w+>::div_ceil$")
+def m_div_ceil(ex, st, func, args, argtys, dest_ty):
+    ty, _ = num_method(func)
+    a, b = args
+    if is_conc(a) and is_conc(b):
+        if b == 0:
+            return [("panic", "attempt to divide by zero", None)]
+        return [("ret", -((-a) // b), None)]
+    if not is_conc(b):
+        ub = ex.unique_value(st, b)
+        if ub is not None:
+            b = ub
+    zb = zint(b)
+    q = ex.binop("Div", a, b, ty, ty, st) if not (is_conc(b) and b == 0) else None
+    outs = []
+    if is_conc(b):
+        if b == 0:
+            return [("panic", "attempt to divide by zero", None)]
+        r = zint(a) % b
+        return [("ret", z3.If(r > 0, q + 1, q), None)]
+    r = zint(a) % zb
+    return [("panic", "attempt to divide by zero", zb == 0), ("ret", z3.If(r > 0, q + 1, q), zb != 0)]
+
+
+@model(r"core::num::<impl \w+>::(checked_div|checked_rem)$")
+def m_checked_div(ex, st, func, args, argtys, dest_ty):
+    ty, name = num_method(func)
+    a, b = args
+    op = "Div" if name == "checked_div" else "Rem"
+    if is_conc(b):
+        if b == 0:
+            return [("ret", none(), None)]
+        return [("ret", some(ex.binop(op, a, b, ty, ty, st)), None)]
+    return [("ret", none(), zint(b) == 0), ("ret", some(ex.binop(op, a, b, ty, ty, State_with(st, [zint(b) != 0]))), zint(b) != 0)]
+
+
+@model(r"core::num::<impl \w+>::abs_diff$")
+def m_abs_diff(ex, st, func, args, argtys, dest_ty):
+    a, b = args
+    if is_conc(a) and is_conc(b):
+        return [("ret", abs(a - b), None)]
+    za, zb = zint(a), zint(b)
+    return [("ret", z3.If(za >= zb, za - zb, zb - za), None)]
+
+
+@model(r"core::num::<impl \w+>::(wrapping_shr|wrapping_shl|checked_shr|checked_shl|overflowing_shr|overflowing_shl)$")
+def m_shifts(ex, st, func, args, argtys, dest_ty):
+    ty, name = num_method(func)
+    bits = INT_BITS[ty]
+    a, b = args
+    if name.startswith("wrapping") and not is_conc(b):
+        # only b mod bits matters: fork over at most `bits` residues
+        outs = []
+        opn = "Shr" if "shr" in name else "Shl"
+        for k in range(bits):
+            cond = zint(b) % bits == k
+            if ex.feasible(st.pc, cond):
+                outs.append(("ret", ex.binop(opn, a, k, ty, ty, st), cond))
+        return outs
+    vals = [b] if is_conc(b) else ex.enumerate_values(st, b, 130)
+    outs = []
+    for bv in vals:
+        cond = True if is_conc(b) else (b == bv)
+        eff = bv % bits
+        opn = "Shr" if "shr" in name else "Shl"
+        if name.startswith("wrapping"):
+            outs.append(("ret", ex.binop(opn, a, eff, ty, ty, st), cond))
+        elif name.startswith("checked"):
+            outs.append(("ret", some(ex.binop(opn, a, bv, ty, ty, st)) if bv < bits else none(), cond))
+        else:
+            outs.append(("ret", Struct([ex.binop(opn, a, eff, ty, ty, st), bv >= bits]), cond))
+    return outs
+
+
+@model(r"core::num::<impl \w+>::(leading_zeros|trailing_zeros|count_ones)$")
+def m_bitcount(ex, st, func, args, argtys, dest_ty):
+    ty, name = num_method(func)
+    bits = INT_BITS[ty]
+    a = args[0]
+    if is_conc(a):
+        if name == "leading_zeros":
+            return [("ret", bits - a.bit_length(), None)]
+        if name == "trailing_zeros":
+            return [("ret", bits if a == 0 else (a & -a).bit_length() - 1, None)]
+        return [("ret", bin(a).count("1"), None)]
+    if name == "leading_zeros":
+        # bits - bit_length(a):  a in [2^(k-1), 2^k) -> bits - k
+        out = z3.IntVal(bits)
+        for k in range(1, bits + 1):
+            out = z3.If(z3.And(a >= (1 << (k - 1)), a < (1 << k)), z3.IntVal(bits - k), out)
+        return [("ret", out, None)]
+    if name == "trailing_zeros":
+        out = z3.IntVal(bits)
+        for k in range(bits - 1, -1, -1):
+            out = z3.If(z3.And(a % (1 << (k + 1)) == (1 << k)), z3.IntVal(k), out)
+        return [("ret", out, None)]
+    raise Unsupported("symbolic count_ones")
+
+
+@model(r"RangeInclusive::<\w+>::new$")
+def m_range_incl_new(ex, st, func, args, argtys, dest_ty):
+    return [("ret", Opaque("range_incl", (args[0], args[1])), None)]
+
+
+@model(r"RangeInclusive::<\w+>::contains::<\w+>$|Range::<\w+>::contains::<\w+>$")
+def m_range_contains(ex, st, func, args, argtys, dest_ty):
+    r = deref(args[0])
+    x = deref(args[1])
+    if isinstance(r, Opaque) and r.what == "range_incl":
+        lo, hi = r.data
+        c = zand(zint(lo) <= zint(x), zint(x) <= zint(hi)) if not (is_conc(lo) and is_conc(hi) and is_conc(x)) else (lo <= x <= hi)
+        return [("ret", c, None)]
+    if isinstance(r, Struct) and len(r) == 2:
+        lo, hi = r
+        c = zand(zint(lo) <= zint(x), zint(x) < zint(hi)) if not (is_conc(lo) and is_conc(hi) and is_conc(x)) else (lo <= x < hi)
+        return [("ret", c, None)]
+    raise Unsupported("contains on %r" % (r,))
+
+
+@model(r"(Ord>::|cmp::)clamp|core::num::<impl \w+>::clamp$")
+def m_clamp(ex, st, func, args, argtys, dest_ty):
+    x, lo, hi = [deref(a) for a in args]
+    if all(is_conc(v) for v in (x, lo, hi)):
+        return [("ret", min(max(x, lo), hi), None)]
+    zx, zl, zh = zint(x), zint(lo), zint(hi)
+    return [("ret", z3.If(zx < zl, zl, z3.If(zx > zh, zh, zx)), None)]
